@@ -3,6 +3,7 @@
 
 usage: gen_expr_cases.py <seed> <count> [--exhaustive k] [--soup n] [--run] [--exprdump PATH]
                          [--driver PATH] [--keep DIR] [--max-report N]
+                         [--contexts none|quick|full] [--no-known-open]
 
 Without --run: prints one case per line on stdout:
     <tree> TAB <hex text>
@@ -31,6 +32,14 @@ With --run: runs the comparison and prints a summary; exit status 1 on any disag
               not be OOF: the generator only writes in-fragment texts, so OOF is itself reported);
           (2) for every tree with wfxb = true (precedence-climb readings; the layered ones, wfb = true,
               are counted separately): spec text = generator text, and ref = code.
+          (3) --contexts quick|full: every tree that passed (2) — except the exhaustive shapes with more than
+              3 operators, which stay SELECT-only — is ALSO evaluated inside the embedding contexts of
+              checks/expr_contexts.py (ALTER ... UPDATE c = <e> WHERE <e>, CREATE TABLE ... ORDER BY <e>,
+              SELECT (<e>) AS x, WITH <e> AS x ..., ...): the subtree EXPLAIN shows at the hole must be the same
+              reference tree (`exprdump -contexts`).  A failure is reported as a SPEC!=CODE block whose first
+              line carries the SQL of the context statement.  quick samples the contexts per case
+              (expr_contexts.plan), full is the whole product.  --no-known-open switches the KNOWN_OPEN
+              exclusions (documented genuine defects of /repo) off.
 """
 import os
 import subprocess
@@ -170,6 +179,15 @@ def bare_shapes(k, ops):
                     yield (op, l, r)
 
 
+def count_ops(e):
+    """number of binary operators of a (decorated) tree"""
+    if e[0] == 'b':
+        return 1 + count_ops(e[2]) + count_ops(e[3])
+    if e[0] in ('i', 'n'):
+        return 0
+    return count_ops(e[-1])
+
+
 def inorder_ops(t):
     return () if t is None else inorder_ops(t[1]) + (t[0],) + inorder_ops(t[2])
 
@@ -242,10 +260,17 @@ def budgets_for(kmax):
     return {0: 4, 1: 3, 2: 3, 3: 2, 4: 1}
 
 
+# the pass of exhaustive() that produced the tree most recently yielded, and its number of binary
+# operators (read by all_cases to tag the cases for the context sampling of the quick tier)
+CURRENT_PASS = [0, 0]
+
+
 def exhaustive(kmax):
     budgets = budgets_for(kmax)
     # pass 1: one representative per class
+    CURRENT_PASS[0] = 1
     for k in range(0, kmax + 1):
+        CURRENT_PASS[1] = k
         budget = budgets.get(k, 0)
         shapes = list(bare_shapes(k, CLASSES))
         n = 2 * k + 1
@@ -256,6 +281,7 @@ def exhaustive(kmax):
                 if any('M' in s for s in a):
                     yield build(t, a, 'n', lambda c, i: REPRESENTATIVE[c], lambda i: "NOT")
     # pass 2: cycle every spelling through every position (three rotations), smaller budgets
+    CURRENT_PASS[0] = 2
     for rot in range(3):
         for k in range(1, kmax + 1):
             budget = max(budgets.get(k, 0) - 1, 0)
@@ -282,6 +308,7 @@ def exhaustive(kmax):
                     yield build(t, a, 'i' if (c0 + rot) % 4 else 'n', spell, notword)
     # pass 3: every ordered pair (and for kmax >= 4 the triples over one spelling per token kind)
     #          of operator spellings, both shapes, wrapper budget 1
+    CURRENT_PASS[0] = 3
     allsp = [s for c in CLASSES for s in CLASS_SPELLINGS[c]]
     assigns5 = list(wrapper_assignments(5, 1))
     for o1 in allsp:
@@ -472,11 +499,15 @@ def soup_case(seed, i):
 
 # ---------------------------------------------------------------------------------------------
 
-def all_cases(seed, count, kmax):
-    """yields (tree-or-None, text)"""
+def all_cases(seed, count, kmax, tags=None):
+    """yields (tree-or-None, text); with `tags` (a list) appends, for every yielded TREE, its origin:
+    "core<k>" (pass 1 of exhaustive(): one representative per precedence class, k binary operators),
+    "spell" (passes 2 and 3: the spelling passes) or "random"."""
     n = 0
     if kmax is not None:
         for e in exhaustive(kmax):
+            if tags is not None:
+                tags.append("core%d" % CURRENT_PASS[1] if CURRENT_PASS[0] == 1 else "spell")
             yield e, None
             n += 1
             if n % 97 == 0:
@@ -484,6 +515,8 @@ def all_cases(seed, count, kmax):
                     yield None, s
     for i in range(count):
         e = random_case(seed, i)
+        if tags is not None:
+            tags.append("random")
         yield e, None
         if i % 5 == 0:
             for s in text_only_variants(e, i):
@@ -520,6 +553,8 @@ def main():
     driver = "/verif/build/expr_driver"
     keep = None
     max_report = 20
+    ctx_mode = "none"
+    known_open = True
     i = 2
     while i < len(args):
         if args[i] == "--exhaustive":
@@ -536,6 +571,12 @@ def main():
             keep = args[i + 1]; i += 2
         elif args[i] == "--max-report":
             max_report = int(args[i + 1]); i += 2
+        elif args[i] == "--contexts":
+            ctx_mode = args[i + 1]; i += 2
+            if ctx_mode not in ("none", "quick", "full"):
+                sys.stderr.write("--contexts none|quick|full\n"); sys.exit(2)
+        elif args[i] == "--no-known-open":
+            known_open = False; i += 1
         else:
             sys.stderr.write("unknown argument %s\n" % args[i]); sys.exit(2)
 
@@ -552,13 +593,16 @@ def main():
 
     # ---- three-way comparison ----
     trees = []          # (encoding, hex text)
+    tree_objs = []      # parallel to trees: (tree, origin tag)
+    tags = []
     texts = {}          # hex text -> index (dedupe, keep order)
-    for e, s in all_cases(seed, count, kmax):
+    for e, s in all_cases(seed, count, kmax, tags):
         if e is not None:
             line = case_line(e)
             enc, h = line.split("\t")
             if enc != "-":
                 trees.append((enc, h))
+                tree_objs.append((e, tags[-1]))
         else:
             h = hx(s)
         if h not in texts:
@@ -611,7 +655,8 @@ def main():
     n_wf = 0
     n_layered = 0
     n_notwf = 0
-    for (enc, h), s in zip(trees, spec_out):
+    ctx_cases = []      # (tree, tag, hex text, hex ref): the well-formed readings that agree under SELECT
+    for (enc, h), s, (obj, tag) in zip(trees, spec_out, tree_objs):
         if s == "NOTWF":
             n_notwf += 1
             continue
@@ -631,10 +676,26 @@ def main():
             bad += 1
             cv = code[h]
             reports.append("SPEC!=CODE  %s   [tree %s]\n--- code\n%s--- spec\n%s" % (unhex(h), enc, unhex(cv) if cv not in ("ERR", "PANIC") else cv + "\n", unhex(sref)))
+        elif not (tag == "core%d" % CURRENT_PASS[1] and False) and not (tag.startswith("core") and int(tag[4:]) > 3):
+            ctx_cases.append((obj, tag, h, sref))
+    ctx_summary = ""
+    if ctx_mode != "none":
+        import json
+        sys.path.insert(0, os.path.dirname(os.path.abspath(__file__)))
+        import expr_contexts
+        # the spelling passes of the 4-operator tier stay SELECT-only as well: only trees with <= 3 operators
+        ctx_in = [c for c in ctx_cases if c[1] == "random" or count_ops(c[0]) <= 3]
+        creports, cstats, (n_ctx, n_evals, n_cbad) = expr_contexts.run(
+            ctx_in, ctx_mode, exprdump, run_tool, keep=keep, known_open_enabled=known_open)
+        reports = creports + reports if n_cbad else reports
+        bad += n_cbad
+        ctx_summary = "  contexts=%d context_cases=%d context_evaluations=%d context_failures=%d" % (n_ctx, len(ctx_in), n_evals, n_cbad)
+        if keep:
+            json.dump(expr_contexts.evidence(cstats, ctx_mode), open(os.path.join(keep, "contexts.json"), "w"), indent=1)
     for r in reports[:max_report]:
         print(r)
-    print("texts=%d (code ERR/PANIC=%d, model OOF/FUEL=%d)  soup=%d (model OOF=%d)  trees=%d (wfx=%d of which layered wf=%d, notwf=%d)  disagreements=%d"
-          % (len(text_list), n_code_fail, n_oof, len(soup), n_soup_oof, len(trees), n_wf, n_layered, n_notwf, bad))
+    print("texts=%d (code ERR/PANIC=%d, model OOF/FUEL=%d)  soup=%d (model OOF=%d)  trees=%d (wfx=%d of which layered wf=%d, notwf=%d)%s  disagreements=%d"
+          % (len(text_list), n_code_fail, n_oof, len(soup), n_soup_oof, len(trees), n_wf, n_layered, n_notwf, ctx_summary, bad))
     sys.exit(1 if bad else 0)
 
 
